@@ -178,7 +178,7 @@ def run_state(st, name, pos, scope, ignore, placement, tags, order=None, kind="g
         case["config_scope"] = cfg_scope
     flags = ["--no-fetch"] + (["--ignore-vcs-tag"] if ignore else [])
     results = []
-    for cmd in ("show", "update"):
+    for cmd in ("show", "update") if not cfg_scope else ("update",):  # (`show` under the config's scope is what the plain run already does)
         want = want_show if cmd == "show" else want_update
         fake = fakevcs.install(fakevcs.FakeVCS(kind, tags_all=served_all, tags_merged=served_head, status=[]))
         try:
